@@ -16,6 +16,7 @@ Global Instance enum_rec_eq_dec : EqDecision enum_rec. Proof. solve_decision. De
 Global Instance eval_rec_eq_dec : EqDecision eval_rec. Proof. solve_decision. Defined.
 Global Instance skind_eq_dec : EqDecision skind. Proof. solve_decision. Defined.
 Global Instance sig_rec_eq_dec : EqDecision sig_rec. Proof. solve_decision. Defined.
+Global Instance attr_kind_eq_dec : EqDecision attr_kind. Proof. solve_decision. Defined.
 
 (* the observed state; maps whose absent entries mean "empty" are compared without their empty entries *)
 Record observed := mkObserved {
@@ -45,6 +46,7 @@ Record observed := mkObserved {
   o_assigns : gmap handle (gset handle);
   o_builder_refs : gmap handle (gset handle);
   o_bus_builder : gmap handle handle;
+  o_attrs : gmap handle attr_kind;
 }.
 
 Definition ne_sets (m : gmap handle (gset handle)) : gmap handle (gset handle) := filter (λ kv, kv.2 ≠ ∅) m.
@@ -65,7 +67,7 @@ Definition agrees (s : state2) (o : observed) : bool :=
   bool_decide (ne_sets (type_refs s3) = ne_sets (o_type_refs o)) && bool_decide (ne_sets (unit_refs s3) = ne_sets (o_unit_refs o)) &&
   bool_decide (ne_sets (enum_refs s3) = ne_sets (o_enum_refs o)) && bool_decide (ne_sets (attr_refs s3) = ne_sets (o_attr_refs o)) &&
   bool_decide (ne_sets (assigns s3) = ne_sets (o_assigns o)) && bool_decide (ne_sets (builder_refs s3) = ne_sets (o_builder_refs o)) &&
-  bool_decide (bus_builder s3 = o_bus_builder o).
+  bool_decide (bus_builder s3 = o_bus_builder o) && bool_decide (attrs s3 = o_attrs o).
 
 (* the observed result class: [None] = accepted, [Some (cause, innermost wrapper)] = refused; a refusal
    decided by payload geometry is compared by its cause only (the wrapper is C01/C07's) *)
